@@ -49,6 +49,7 @@ type Ctx struct {
 	noMerge   bool
 	mergeOK, mergeFail int
 	frozen   map[*value]bool
+	pendingGo []pendingGo
 	hashBuf  map[*value][]*Term
 	protoTab []protoRec
 	cover    map[*ssa.Function]bool
@@ -644,5 +645,21 @@ func isZeroValue(v value) bool {
 func (c *Ctx) debugf(format string, a ...interface{}) {
 	if c.trace {
 		fmt.Fprintf(os.Stderr, format, a...)
+	}
+}
+
+type pendingGo struct {
+	fn   value
+	args []value
+	fr   *frame
+	pos  token.Pos
+}
+
+// runPendingGo runs goroutines whose start was deferred (option defergo), in spawn order.
+func (c *Ctx) runPendingGo() {
+	for len(c.pendingGo) > 0 {
+		g := c.pendingGo[0]
+		c.pendingGo = c.pendingGo[1:]
+		c.call(g.fr, g.pos, g.fn, g.args)
 	}
 }
